@@ -624,6 +624,10 @@ func checkOrphanPass(c *Ctx, fn *ssa.Function) {
 			}
 		}
 	}
+	var setOps []mapOp
+	if set != nil {
+		setOps = w.mapOpsOn(set)
+	}
 	for _, rc := range rems {
 		// empty listing removes nothing
 		okEmpty := f.Any(rc.Block(), func(l Lit) bool {
@@ -641,16 +645,19 @@ func checkOrphanPass(c *Ctx, fn *ssa.Function) {
 		c.Check(okEmpty, "R4.passes", "orphan|nothing removed on an empty key list", w.Pos(rc.Pos()), "must-fact len(listed keys) != 0", "the orphan pass can remove certificates when the underlying agent lists no keys (a locked agent)")
 		// failed lookup of the removed certificate's key hash
 		okLookup := f.Any(rc.Block(), func(l Lit) bool {
-			ex, ok := l.V.(*ssa.Extract)
-			if !ok || l.Pol || ex.Index != 1 {
+			if l.Pol || set == nil {
 				return false
 			}
-			lk, ok := ex.Tuple.(*ssa.Lookup)
-			if !ok || set == nil || lk.X != set {
-				return false
+			for _, op := range setOps {
+				if op.Kind != "lookup" || op.Found == nil || op.Found != l.V {
+					continue
+				}
+				ke := w.Expr(op.Key)
+				if strings.Contains(ke, ".Key)") && strings.Contains(ke, "Marshal") && strings.Contains(ke, "range(p1)") {
+					return true
+				}
 			}
-			ke := w.Expr(lk.Index)
-			return strings.Contains(ke, ".Key)") && strings.Contains(ke, "Marshal") && strings.Contains(ke, "range(p1)")
+			return false
 		})
 		c.Check(okLookup, "R4.passes", "orphan|removal only when the certificate's key is not listed", w.Pos(rc.Pos()), "must-fact: lookup of hash(cert.Key.Marshal()) in the listed-key set failed", "a certificate can be removed as orphan although the lookup of its key in the listed-key set did not fail")
 	}
@@ -658,16 +665,20 @@ func checkOrphanPass(c *Ctx, fn *ssa.Function) {
 	nUpd := 0
 	plain, viaCert := false, false
 	w.Focus(fn)
-	for _, b := range setFn.Blocks {
-		for _, ins := range b.Instrs {
-			mu, ok := ins.(*ssa.MapUpdate)
-			if !ok || set == nil || mu.Map != setInHelper {
+	var fillOps []mapOp
+	if setInHelper != nil {
+		fillOps = w.mapOpsOn(setInHelper)
+	}
+	{
+		for _, op := range fillOps {
+			if op.Kind != "update" || op.At.Parent() != setFn {
 				continue
 			}
+			mu := op.At
 			nUpd++
 			// the hashed blob, over every value that may reach it (one insert per branch of the cast, or one insert
 			// of a blob chosen by the cast)
-			var kv ssa.Value = mu.Key
+			var kv ssa.Value = op.Key
 			if hc, ok := strip(kv).(*ssa.Call); ok && len(hc.Call.Args) == 1 {
 				kv = hc.Call.Args[0]
 			}
